@@ -288,8 +288,31 @@ Definition root_ok (a : action) : Prop :=
 Definition obs_ok (o : obs) : Prop :=
   match o with
   | OReport recs _ _ => Forall (fun r => R (rc_trace r) true) recs
+  | OCall (RCtx (Some c)) => R (fst (fst c)) (snd c)     (* an extracted context: trace and sampled flag of a root *)
   | _ => True
   end.
+
+(* the contexts exec_call hands out come from token items *)
+Lemma exec_call_ctx_ok s th e c s1 th1 e1 out tr id sa :
+  okview R s th ->
+  exec_call s th e c = COk s1 th1 e1 out (RCtx (Some (tr, id, sa))) -> R tr sa.
+Proof.
+  intros (Vs & Va & Vst & Vf) Ex. unfold exec_call in Ex.
+  destruct c; cbv beta iota zeta in Ex;
+    try (repeat match type of Ex with
+                | context [match ?x with _ => _ end] => destruct x eqn:?; try discriminate
+                | context [if ?x then _ else _] => destruct x eqn:?; try discriminate
+                end; inversion Ex; fail).
+  - (* from_span *)
+    unfold get_span in Ex. destruct (alookup h (s_spans s)) as [[sp|]|] eqn:El; try discriminate.
+    pose proof (okspans_lookup R _ _ _ Vs El) as Hsp. simpl in Hsp. apply (issue_token_ok R) in Hsp.
+    destruct (issue_token sp) as [|it tk]; inversion Ex; subst.
+    inversion Hsp as [|? ? Hit _]; subst. exact Hit.
+  - (* current local parent *)
+    destruct (s_cur_token (th_stack th)) as [[|it tk]|] eqn:Ec; try discriminate.
+    pose proof (s_cur_token_ok R _ _ Vst Ec) as Htk. inversion Ex; subst.
+    inversion Htk as [|? ? Hit _]; subst. exact Hit.
+Qed.
 
 Lemma okrecs_erase l : okrecs l -> Forall (fun r => R (rc_trace r) true) (map snd l).
 Proof.
@@ -328,7 +351,9 @@ Proof.
                | context [if ?x then _ else _] => destruct x eqn:?; try discriminate
                end; inversion Ex; subst; simpl; auto. }
     destruct Hsame as (S1 & S2 & S3 & S4).
-    simpl. split; auto. unfold oksys, put_thread; simpl. rewrite S1, S2, S3. simpl.
+    assert (Hobs : obs_ok (OCall r)).
+    { destruct r as [|[[[tr id] sa]|]| |]; simpl; auto. eapply exec_call_ctx_ok; eauto. }
+    simpl. split; [|exact Hobs]. unfold oksys, put_thread; simpl. rewrite S1, S2, S3. simpl.
     repeat split; auto. apply okthreads_update; auto.
     unfold okthread; simpl. rewrite S4. repeat split; auto; apply Tch.
   - (* push *)
@@ -434,7 +459,22 @@ Theorem reported_only_sampled_traces dbg rc sc qc h :
 Proof.
   pose proof (run_ok (fun tr sa => In (tr, sa) (roots_of h)) h (sys_init dbg rc sc qc)
                      (sys_init_ok _ dbg rc sc qc) (roots_of_ok h)) as [_ H].
-  exact H.
+  eapply Forall_impl; [|exact H]. intros o Ho. destruct o; auto.
+Qed.
+
+(* C05 / C11: every context the API hands out (from_span, current_local_parent), in every
+   history and under every schedule, carries the trace id and the sampling decision of a root
+   the program created: a context with sampled = true names a trace with a sampled root, and
+   (contrapositive) the contexts of a trace whose roots are all unsampled carry sampled = false *)
+Theorem extracted_contexts_from_roots dbg rc sc qc h :
+  Forall (fun o => match o with
+                   | OCall (RCtx (Some c)) => In (fst (fst c), snd c) (roots_of h)
+                   | _ => True
+                   end) (snd (run (sys_init dbg rc sc qc) h)).
+Proof.
+  pose proof (run_ok (fun tr sa => In (tr, sa) (roots_of h)) h (sys_init dbg rc sc qc)
+                     (sys_init_ok _ dbg rc sc qc) (roots_of_ok h)) as [_ H].
+  eapply Forall_impl; [|exact H]. intros o Ho. destruct o as [|r| | |]; auto.
 Qed.
 
 Corollary unsampled_traces_silent dbg rc sc qc h tr :
